@@ -60,6 +60,11 @@ type c17fx struct {
 	igcs   [][]byte
 	bounds []*geom.Bounds
 	tracks []*geom.LineString
+	// shared objects that hold only options or read-only references
+	wktEncs  []*wkt.Encoder
+	sqlVals  []sqlWrapper
+	featObjs []*geojson.Feature
+	fcObj    *geojson.FeatureCollection
 }
 
 func c17Hash(fx *c17fx) uint64 {
@@ -192,7 +197,22 @@ func c17Fixtures(seed uint64) *c17fx {
 			}
 		}
 		fx.bounds = append(fx.bounds, t.Bounds())
+		if _, isRing := t.(*geom.LinearRing); !isRing {
+			kind := g.Kind
+			if i%2 == 0 {
+				fx.sqlVals = append(fx.sqlVals, ewkbWrapper(kind, t))
+			} else {
+				fx.sqlVals = append(fx.sqlVals, wkbWrapper(kind, t))
+			}
+			fo := &geojson.Feature{ID: "f" + strconv.Itoa(i), Geometry: t, Properties: map[string]interface{}{"k": float64(i), "s": "v"}}
+			if !t.Empty() {
+				fo.BBox = t.Bounds()
+			}
+			fx.featObjs = append(fx.featObjs, fo)
+		}
 	}
+	fx.fcObj = &geojson.FeatureCollection{Features: fx.featObjs[:8]}
+	fx.wktEncs = []*wkt.Encoder{wkt.NewEncoder(), wkt.NewEncoder(wkt.EncodeOptionWithMaxDecimalDigits(2)), wkt.NewEncoder(wkt.EncodeOptionWithMaxDecimalDigits(0))}
 	fx.wkts = append(fx.wkts, "POINT (1 2", "LINESTRING (1 2)", "GEOMETRYCOLLECTION M (POINT (1 2 3))", "  multipoint z ((1 2 3), EMPTY)\n")
 	fx.wkbs = append(fx.wkbs, []byte{1, 2, 0, 0, 0, 3, 0, 0, 0, 1, 2}, []byte{})
 	for i := 0; i < 24; i++ {
@@ -488,6 +508,102 @@ var c17Registry = func() []c17fn {
 		b, err := xml.Marshal(e)
 		return string(b) + fmt.Sprint(err)
 	})
+
+	// ---- shared objects: one value used by every goroutine -------------------------
+	add("wkt.Encoder(shared).Encode", ng, func(fx *c17fx, k int) string {
+		var sb strings.Builder
+		for _, e := range fx.wktEncs {
+			s, err := e.Encode(fx.geoms[k])
+			fmt.Fprint(&sb, s, err, ";")
+		}
+		return sb.String()
+	})
+	add("sql wrapper(shared).Value", func(fx *c17fx) int { return len(fx.sqlVals) }, func(fx *c17fx, k int) string {
+		v, err := fx.sqlVals[k].Value()
+		return fmt.Sprintf("%x %v", v, err)
+	})
+	add("geojson.Feature(shared).MarshalJSON/FeatureCollection(shared)", func(fx *c17fx) int { return len(fx.featObjs) }, func(fx *c17fx, k int) string {
+		b, err := fx.featObjs[k].MarshalJSON()
+		var b2 []byte
+		var err2 error
+		if k%8 == 0 {
+			b2, err2 = fx.fcObj.MarshalJSON()
+		}
+		return fmt.Sprint(string(b), err, string(b2), err2)
+	})
+	add("geojson.Encode/Geometry.Decode", ng, func(fx *c17fx, k int) string {
+		g, err := geojson.Encode(fx.geoms[k])
+		if err != nil || g == nil {
+			return fmt.Sprint("err:", err)
+		}
+		t, err := g.Decode()
+		return gstr(t, err)
+	})
+	add("ewkb.Write/Read, wkbhex.Decode", func(fx *c17fx) int { return len(fx.ewkbs) }, func(fx *c17fx, k int) string {
+		t, err := ewkb.Read(bytes.NewReader(fx.ewkbs[k]))
+		var buf bytes.Buffer
+		var err2 error
+		if err == nil {
+			err2 = ewkb.Write(&buf, binary.BigEndian, t)
+		}
+		t3, err3 := wkbhex.Decode(fx.hexes[k])
+		return gstr(t, err) + fmt.Sprintf("|%x %v|", buf.Bytes(), err2) + gstr(t3, err3)
+	})
+	add("T.FlatCoords/Ends/Endss/Coord(i)", ng, func(fx *c17fx, k int) string {
+		t := fx.geoms[k]
+		if gc, ok := t.(*geom.GeometryCollection); ok {
+			return fmt.Sprint(len(gc.Geoms()), gc.NumGeoms())
+		}
+		s := fw.Fs(t.FlatCoords()) + fmt.Sprint(t.Ends(), t.Endss())
+		type coorder interface {
+			Coord(int) geom.Coord
+			NumCoords() int
+		}
+		if cc, ok := t.(coorder); ok {
+			for i := 0; i < cc.NumCoords() && i < 4; i++ {
+				s += cstr(cc.Coord(i))
+			}
+		}
+		return s
+	})
+	add("xy typed centroids", ng, func(fx *c17fx, k int) (out string) {
+		t := fx.geoms[k]
+		if t.Empty() {
+			return "empty"
+		}
+		switch x := t.(type) {
+		case *geom.Point:
+			return cstr(xy.PointsCentroid(x, x))
+		case *geom.MultiPoint:
+			return cstr(xy.MultiPointCentroid(x))
+		case *geom.LineString:
+			return cstr(xy.LinesCentroid(x, x))
+		case *geom.LinearRing:
+			return cstr(xy.LinearRingsCentroid(x))
+		case *geom.MultiLineString:
+			return cstr(xy.MultiLineCentroid(x))
+		case *geom.Polygon:
+			return cstr(xy.PolygonsCentroid(x, x))
+		case *geom.MultiPolygon:
+			return cstr(xy.MultiPolygonCentroid(x))
+		}
+		return "n/a"
+	})
+	add("sorting/radial/TreeSet on private copies", nf, func(fx *c17fx, k int) string {
+		cp := append([]float64(nil), fx.flats[k]...)
+		sort.Sort(sorting.NewFlatCoordSorting2D(geom.XY, cp))
+		cp2 := append([]float64(nil), fx.flats[k]...)
+		sort.Sort(xy.NewRadialSorting(geom.XY, cp2, fx.coords[k%len(fx.coords)]))
+		ts := transform.NewTreeSet(geom.XY, c17cmp{})
+		for i := 0; i+1 < len(fx.flats[k]); i += 2 {
+			ts.Insert(fx.flats[k][i : i+2])
+		}
+		return fw.Fs(cp) + fw.Fs(cp2) + fw.Fs(ts.ToFlatArray())
+	})
+	add("xy angle helpers/Equal", nc, func(fx *c17fx, k int) string {
+		a, b := fx.coords[k], fx.coords[k+1]
+		return fbits(xy.AngleFromOrigin(a)) + fbits(xy.Normalize(a[0])) + fbits(xy.NormalizePositive(a[1])) + fbits(xy.Diff(a[0], b[0])) + fmt.Sprint(xy.AngleOrientation(a[0], b[0]), xy.Equal(a, 0, b, 0))
+	})
 	return fns
 }()
 
@@ -657,7 +773,35 @@ func readHead(path string, max int) []byte {
 	return buf[:n]
 }
 
-var raceFrameRe = regexp.MustCompile(`(?m)^\s+(github\.com/twpayne/go-geom[^\s(]*)\(`)
+var raceFrameRe = regexp.MustCompile(`(?m)^\s+(github\.com/twpayne/go-geom\S*)\(\)\s*$`)
+
+// raceKey names a race report by the outermost go-geom frame of each of its
+// first two stacks (the two conflicting accesses), i.e. by the pair of entry
+// points the harness called, so that one defect reached through many inner
+// frames is reported once.
+func raceKey(blk string) string {
+	var names []string
+	for _, st := range strings.Split(blk, "\n\n") {
+		if len(names) >= 2 {
+			break
+		}
+		head := strings.TrimSpace(st)
+		if !(strings.HasPrefix(head, "WARNING: DATA RACE") || strings.HasPrefix(head, "Previous ") || strings.HasPrefix(head, "Read at") || strings.HasPrefix(head, "Write at")) {
+			continue
+		}
+		fr := raceFrameRe.FindAllStringSubmatch(st, -1)
+		if len(fr) == 0 {
+			names = append(names, "(no go-geom frame)")
+			continue
+		}
+		names = append(names, fr[len(fr)-1][1])
+	}
+	if len(names) == 0 {
+		return "unknown"
+	}
+	sort.Strings(names)
+	return strings.Join(names, " <-> ")
+}
 
 // c17Special is the parent: children at several GOMAXPROCS values and seeds
 // under the race detector, race logs counted and de-duplicated.
@@ -746,22 +890,7 @@ func c17Special(p *fw.Parent) int {
 					if !strings.Contains(blk, "WARNING: DATA RACE") {
 						continue
 					}
-					fr := raceFrameRe.FindAllStringSubmatch(blk, -1)
-					key := "unknown"
-					if len(fr) > 0 {
-						var names []string
-						seen := map[string]bool{}
-						for _, m := range fr {
-							if !seen[m[1]] {
-								seen[m[1]] = true
-								names = append(names, m[1])
-							}
-							if len(names) >= 2 {
-								break
-							}
-						}
-						key = strings.Join(names, " <-> ")
-					}
+					key := raceKey(blk)
 					mu.Lock()
 					nReports++
 					if _, ok := reports[key]; !ok {
